@@ -199,4 +199,225 @@ theorem Steps.mono {g : Graph} {s0 s : St} (h : Steps g s0 s) (y : Nat)
 theorem Steps.len {g : Graph} {s0 s : St} (h : Steps g s0 s) : s.status.length = s0.status.length := by
   obtain ⟨ws, T⟩ := h.trace; exact T.len_eq
 
+/-! ### what `save`, `saveRefs`, `saveQueue` do when they succeed -/
+
+/-- `dependent_objects` is duplicate-free and within range -/
+def DGood (n : Nat) (d : List Nat) : Prop := d.Nodup ∧ ∀ z ∈ d, z < n
+
+/-- guarantee of a successful `obj._save_(dependent_objects)` -/
+structure SavePost (g : Graph) (x : Nat) (dep : Option (List Nat)) (s s' : St) (d' : List Nat) : Prop where
+  steps : Steps g s s'
+  pend : Pending (statusOf s.status x)
+  saved : statusOf s'.status x = savedOf (statusOf s.status x)
+  /-- objects on `dependent_objects` are not touched -/
+  frame : ∀ z ∈ dep.getD [], z ≠ x → statusOf s'.status z = statusOf s.status z
+  notin : (statusOf s.status x = .created ∨ statusOf s.status x = .modified) → x ∉ dep.getD []
+  dsub : ∀ z ∈ dep.getD [], z ∈ d'
+  dlen : (dep.getD []).length ≤ d'.length
+  dgood : DGood s.status.length (dep.getD []) → DGood s.status.length d'
+
+def RecSpec (g : Graph) (rec : Nat → List Nat → St → Except Err (St × List Nat)) : Prop :=
+  ∀ y d s s' d', statusOf s.status y = .created → rec y d s = .ok (s', d') → SavePost g y (some d) s s' d'
+
+theorem saveRefs_spec {g : Graph} {rec : Nat → List Nat → St → Except Err (St × List Nat)} (hrec : RecSpec g rec) :
+    ∀ (rs : List Ref) (d : List Nat) (s s' : St) (d' : List Nat), saveRefs rec rs d s = .ok (s', d') →
+      Steps g s s' ∧ (∀ z ∈ d, statusOf s'.status z = statusOf s.status z)
+      ∧ (∀ r ∈ rs, statusOf s'.status r.target ≠ .created)
+      ∧ (∀ z ∈ d, z ∈ d') ∧ d.length ≤ d'.length ∧ (DGood s.status.length d → DGood s.status.length d') := by
+  intro rs
+  induction rs with
+  | nil =>
+    intro d s s' d' h
+    simp [saveRefs] at h
+    obtain ⟨rfl, rfl⟩ := h
+    exact ⟨Steps.refl _, fun _ _ => rfl, by simp, fun _ h => h, Nat.le_refl _, fun h => h⟩
+  | cons r rs ih =>
+    intro d s s' d' h
+    simp only [saveRefs] at h
+    by_cases hc : statusOf s.status r.target = .created
+    · simp only [hc, if_true] at h
+      cases hr : rec r.target d s with
+      | error e => simp [hr] at h
+      | ok p =>
+        obtain ⟨s1, d1⟩ := p
+        simp only [hr] at h
+        have P := hrec _ _ _ _ _ hc hr
+        obtain ⟨hst, hfr, hall, hsub, hlen, hdg⟩ := ih d1 s1 s' d' h
+        have hnot : r.target ∉ d := by simpa using P.notin (Or.inl hc)
+        have hl1 : s1.status.length = s.status.length := P.steps.len
+        refine ⟨P.steps.trans hst, ?_, ?_, ?_, ?_, ?_⟩
+        · intro z hz
+          have hz1 : z ∈ d1 := P.dsub z (by simpa using hz)
+          rw [hfr z hz1]
+          exact P.frame z (by simpa using hz) (fun e => hnot (e ▸ hz))
+        · intro r' hr'
+          rcases List.mem_cons.mp hr' with rfl | hr'
+          · apply hst.mono
+            rw [P.saved]; exact savedOf_ne_created P.pend
+          · exact hall r' hr'
+        · intro z hz; exact hsub z (P.dsub z (by simpa using hz))
+        · have := P.dlen; simp at this; omega
+        · intro hg
+          have := P.dgood (by simpa using hg)
+          rw [← hl1]; exact hdg (hl1 ▸ this)
+    · simp only [hc, if_false] at h
+      obtain ⟨hst, hfr, hall, hsub, hlen, hdg⟩ := ih d s s' d' h
+      refine ⟨hst, hfr, ?_, hsub, hlen, hdg⟩
+      intro r' hr'
+      rcases List.mem_cons.mp hr' with rfl | hr'
+      · exact hst.mono _ hc
+      · exact hall r' hr'
+
+theorem statusOf_writeObj {stx : Status} (hp : Pending stx) (x y : Nat) (s : St) :
+    statusOf (writeObj x stx s).status y = if x = y ∧ x < s.status.length then savedOf stx else statusOf s.status y := by
+  rw [writeObj_pending hp]; exact statusOf_set _ _ _ _
+
+theorem save_spec (g : Graph) : ∀ (fuel x : Nat) (dep : Option (List Nat)) (s s' : St) (d' : List Nat),
+    save g fuel x dep s = .ok (s', d') → SavePost g x dep s s' d' := by
+  intro fuel
+  induction fuel with
+  | zero => intro x dep s s' d' h; simp [save] at h
+  | succ fuel ih =>
+    intro x dep s s' d' h
+    simp only [save] at h
+    by_cases hcm : statusOf s.status x = .created ∨ statusOf s.status x = .modified
+    · simp only [hcm, if_true] at h
+      have hp : Pending (statusOf s.status x) := by
+        rcases hcm with h | h
+        · exact Or.inl h
+        · exact Or.inr (Or.inl h)
+      have hxlt : x < s.status.length := pending_lt hp
+      by_cases hin : inDep dep x = true
+      · simp [hin] at h
+      · simp only [hin] at h
+        have hnot : x ∉ dep.getD [] := by
+          cases dep with
+          | none => simp
+          | some d => simpa [inDep] using hin
+        cases hr : saveRefs (fun y d' s' => save g fuel y (some d') s') (attrsToCheck g (statusOf s.status x) x)
+            (dep.getD [] ++ [x]) s with
+        | error e => simp [hr] at h
+        | ok p =>
+          obtain ⟨s1, d1⟩ := p
+          simp [hr] at h
+          obtain ⟨rfl, rfl⟩ := h
+          have hrec : RecSpec g (fun y d' s' => save g fuel y (some d') s') := by
+            intro y d s s' d' _ hy; exact ih y (some d) s s' d' hy
+          obtain ⟨hst, hfr, hall, hsub, hlen, hdg⟩ := saveRefs_spec hrec _ _ _ _ _ hr
+          have hx1 : statusOf s1.status x = statusOf s.status x := hfr x (by simp)
+          have hl1 : s1.status.length = s.status.length := hst.len
+          have hstep : Steps g s1 (writeObj x (statusOf s.status x) s1) := by
+            rw [← hx1]; exact Steps.one s1 x (hx1 ▸ hp) (by rw [hx1]; exact hall)
+          exact {
+            steps := hst.trans hstep
+            pend := hp
+            saved := by rw [statusOf_writeObj hp]; simp [hl1, hxlt]
+            frame := by
+              intro z hz hzx
+              rw [statusOf_writeObj hp]
+              have : ¬ (x = z ∧ x < s1.status.length) := fun h => hzx h.1.symm
+              simp only [this, if_false]
+              exact hfr z (by simp [hz])
+            notin := fun _ => hnot
+            dsub := fun z hz => hsub z (by simp [hz])
+            dlen := by simp at hlen; omega
+            dgood := by
+              intro hg
+              apply hdg
+              refine ⟨?_, ?_⟩
+              · rw [List.nodup_append]
+                refine ⟨hg.1, by simp, ?_⟩
+                intro a ha b hb; simp at hb; subst hb; intro e; exact hnot (e ▸ ha)
+              · intro z hz
+                rcases List.mem_append.mp hz with hz | hz
+                · exact hg.2 z hz
+                · simp at hz; subst hz; exact hxlt }
+    · simp only [hcm, if_false] at h
+      by_cases hd : statusOf s.status x = .markedToDelete
+      · simp [hd] at h
+        obtain ⟨rfl, rfl⟩ := h
+        have hp : Pending (statusOf s.status x) := Or.inr (Or.inr hd)
+        have hxlt : x < s.status.length := pending_lt hp
+        have hstep : Steps g s (writeObj x (statusOf s.status x) s) :=
+          Steps.one s x hp (by rw [hd]; simp [attrsToCheck])
+        rw [hd] at hstep
+        exact {
+          steps := hstep
+          pend := hp
+          saved := by rw [statusOf_writeObj (Or.inr (Or.inr rfl))]; simp [hxlt, hd]
+          frame := by
+            intro z _ hzx
+            rw [statusOf_writeObj (Or.inr (Or.inr rfl))]
+            have : ¬ (x = z ∧ x < s.status.length) := fun h => hzx h.1.symm
+            simp only [this, if_false]
+          notin := fun h => absurd h hcm
+          dsub := fun z hz => hz
+          dlen := Nat.le_refl _
+          dgood := fun h => h }
+      · simp [hd] at h
+
+/-- after a successful `save`, the object counts as written -/
+theorem Trace.written_of_saved {g : Graph} {s0 s : St} {ws : List Write} (T : Trace g s0 s ws) {x : Nat}
+    (hp : Pending (statusOf s0.status x)) (hs : statusOf s.status x = savedOf (statusOf s0.status x)) :
+    stmtOf (statusOf s0.status x) x ∈ ws := by
+  rcases T.status_cases x with h | ⟨_, _, hm⟩
+  · have h2 : Pending (savedOf (statusOf s0.status x)) := by rw [← hs, h]; exact hp
+    exact absurd h2 (savedOf_not_pending hp)
+  · exact hm
+
+theorem written_iff (s : St) (x : Nat) : written s x = true ↔ ∃ w ∈ s.out, w.obj? = some x := by
+  simp [written, List.any_eq_true]
+
+/-- result of a successful `saveQueue`: a step sequence after which every object of the queue has been written -/
+theorem saveQueue_spec (g : Graph) (fuel : Nat) : ∀ (q : List (Option Nat)) (s s' : St),
+    saveQueue g fuel q s = .ok s' → Steps g s s' ∧ ∀ x, some x ∈ q → written s' x = true := by
+  intro q
+  induction q with
+  | nil =>
+    intro s s' h
+    simp [saveQueue] at h; subst h
+    exact ⟨Steps.refl _, by simp⟩
+  | cons o q ih =>
+    intro s s' h
+    -- monotonicity of `written` along steps
+    have wmono : ∀ {a b : St}, Steps g a b → ∀ x, written a x = true → written b x = true := by
+      intro a b hab x hw
+      obtain ⟨ws, T⟩ := hab.trace
+      rw [written_iff] at hw ⊢
+      obtain ⟨w, hw, hx⟩ := hw
+      exact ⟨w, by rw [T.out_eq]; exact List.mem_append_left _ hw, hx⟩
+    cases o with
+    | none =>
+      simp only [saveQueue] at h
+      obtain ⟨hst, hall⟩ := ih s s' h
+      exact ⟨hst, by intro x hx; simp at hx; exact hall x hx⟩
+    | some x =>
+      simp only [saveQueue] at h
+      by_cases hw : written s x = true
+      · simp only [hw, if_true] at h
+        obtain ⟨hst, hall⟩ := ih s s' h
+        refine ⟨hst, ?_⟩
+        intro y hy
+        simp at hy
+        rcases hy with rfl | hy
+        · exact wmono hst _ hw
+        · exact hall y hy
+      · simp only [hw] at h
+        cases hr : save g fuel x none s with
+        | error e => simp [hr] at h
+        | ok p =>
+          obtain ⟨s1, d1⟩ := p
+          simp [hr] at h
+          have P := save_spec g _ _ _ _ _ _ hr
+          obtain ⟨hst, hall⟩ := ih s1 s' h
+          refine ⟨P.steps.trans hst, ?_⟩
+          intro y hy
+          simp at hy
+          rcases hy with rfl | hy
+          · apply wmono hst
+            obtain ⟨ws, T⟩ := P.steps.trace
+            rw [written_iff]
+            exact ⟨_, by rw [T.out_eq]; exact List.mem_append_right _ (T.written_of_saved P.pend P.saved), stmtOf_obj _ _⟩
+          · exact hall y hy
+
 end PonyVerif.Model.SaveOrder
